@@ -148,6 +148,16 @@ class SMutList(Model):
         arr = self.arr
         return SymIter(self.length, lambda k: self.wrap(z3.Select(arr, k)))
 
+    def py_binop(self, it, op, other, refl):
+        # list concatenation: a new list with the elements of both, in order
+        if isinstance(op, ast.Add) and isinstance(other, SMutList) and other.arr.sort() == self.arr.sort():
+            a, b = (other, self) if refl else (self, other)
+            la = to_num(a.length)
+            k = z3.Int(it.ctx._name('cat'))
+            arr = z3.Lambda([k], z3.If(k < la, z3.Select(a.arr, k), z3.Select(b.arr, k - la)))
+            return SMutList(z3.simplify(la + to_num(b.length)), arr, self.wrap)
+        return NotImplemented
+
     def fresh_like(self, it, hint):
         n = it.ctx.fresh_int(hint + "_len")
         it.ctx.assume(n >= 0)
@@ -1913,7 +1923,28 @@ class Lib(object):
                                   'copy': Builtin('copy.copy', deepcopy)})
 
     def ns_functools(self):
-        return Namespace('functools', {})
+        def _reduce(it, a, k):
+            """functools.reduce(np.add, seq): the elementwise sum of the arrays of seq (seq of symbolic length, equal shapes)"""
+            f, seq = a[0], a[1]
+            if not (isinstance(f, Builtin) and f.name in ('add', 'np.add', 'numpy.add')):
+                raise Unsupported("functools.reduce with %r" % (f,))
+            rows = it.iterate(seq)
+            if not isinstance(rows, SymIter):
+                acc = rows[0]
+                for r in rows[1:]:
+                    acc = it.call(f, (acc, r))
+                return acc
+            it.ctx.note_trusted("functools.reduce(np.add, seq): the elementwise sum of the elements of seq, in order")
+            it.ctx.oblige("pre(reduce): the sequence is not empty", to_num(rows.length) >= 1)
+            probe = rows.element(it.ctx.fresh_int('rk'))
+            if isinstance(probe, SArr):
+                if probe.rank == 0:
+                    return partial_sum(it, rows.length, lambda i: to_real(rows.element(i).get(())), 'reduce')
+                return SArr(probe.shape, lambda o: partial_sum(it, rows.length, lambda i: to_real(rows.element(i).get(o)), 'reduce'))
+            if to_num(probe) is not None:
+                return partial_sum(it, rows.length, lambda i: to_real(rows.element(i)), 'reduce')
+            raise Unsupported("reduce over %r" % (probe,))
+        return Namespace('functools', {'reduce': Builtin('functools.reduce', _reduce)})
 
     def ns_logging(self):
         noop = Builtin('logging', lambda it, a, k: None)
